@@ -199,6 +199,13 @@ func (brexecEngine) Gen(r *rand.Rand, idx int, tier string) any {
 		}
 		w.StUpdatedReady = minInt(maxInt(edge, 0), w.StUpdated)
 	}
+	if chance(r, 8) && n > 1 {
+		// the workload is ahead of the plan, none of its updated pods is ready, and the threshold tolerates all of them
+		ft := pick(r, Pct(100), Pct(100), Pct(80), Int(n))
+		in.FT = &ft
+		w.StUpdated = minInt(maxInt(planned, 0)+1+r.Intn(n), n)
+		w.StUpdatedReady = 0
+	}
 	st.Updated, st.UpdatedReady = w.StUpdated, w.StUpdatedReady
 	if chance(r, 30) {
 		st.Updated, st.UpdatedReady = r.Intn(n+1), 0
